@@ -737,6 +737,10 @@ def r07_8(ctx):
 
 RULES = [r07_1, r07_2, r07_3, r07_4, r07_5, r07_6, r07_7, r07_8]
 
+from .upstream import upstream_facts  # noqa: E402
+
+RULES_THOROUGH = RULES + [upstream_facts]
+
 LEVEL_TEXT = (
     "Static decision of the naming-determinism discipline: a flow-sensitive taint analysis over the statement CFG of every "
     "function that can reach a nondeterministic source (uuid, id, hash, clock, pid, unseeded RNG, frozen set-iteration order) "
